@@ -1,4 +1,301 @@
-(* Events.v -- stub; the model that belongs here is being written. *)
+(* Events.v -- model of the progress-event machinery of py7zr extraction (property C18).
+
+   What is modelled (py7zr/py7zr.py, line numbers of the pinned tree):
+   - SevenZipFile._extract            l.563  q.put(("pre",..)) before any worker runs,
+                                      l.633  q.put(("post",..)) after Worker.extract returned (all workers joined);
+   - Worker.extract (1273-1340)       which lists of members are walked by which thread:
+                                      no streams: the empty-stream members on the calling thread;
+                                      one folder: ALL members of the archive on the calling thread;
+                                      several folders: the empty-stream members first (calling thread), then one
+                                      walk per folder that has at least one registered target -- sequentially when
+                                      not `parallel` (password / file object given), one thread per folder otherwise;
+   - Worker._extract_single (1369-1449) per member f of the walked list: "s" (name, compressed), then -- only when f
+                                      has a registered target and is not an empty stream -- Worker.decompress WITH q,
+                                      then "e" (name, str(f.uncompressed)).  Members without a target get s and e too;
+                                      _check() decompresses them WITHOUT q: no "u";
+   - Worker.decompress (1486-1505)    the update loop, with the clock as an input;
+   - SevenZipFile.reporter (1042-1065) and close() (1156-1162): FIFO consumer, None sentinel, join(1).
+
+   The queue is FIFO; an interleaving of the worker threads is a list of worker indices (who enqueues next).
+   Events carry the member id as a ghost field so that theorems can speak about "the events of member i";
+   the real events carry only what `erase` keeps.
+
+   NOT modelled: the member-numbering of ArchiveFileList (offset + index) -- the model takes "has a registered target"
+   per member as data; exceptions inside workers (the quantifier of C18 ranges over intact archives).
+   stdlib only; no axioms. *)
 From P7 Require Import Prelude.
 Open Scope Z_scope.
-Definition events_dispatch (fn : Z) (a : tree) : tree := TL [TI (-2)].
+
+Definition name := list Z.   (* code points of the member name *)
+
+Inductive event :=
+| Pre | Post
+| Start (id : Z) (nm : name) (csize : Z)
+| Update (id : Z) (n : Z)
+| End (id : Z) (nm : name) (size : Z).
+
+Record member := mkMember {
+  m_id : Z;               (* position in the archive's file list (ghost: identifies the member) *)
+  m_name : name;
+  m_csize : Z;            (* f.compressed or 0: second argument of report_start *)
+  m_size : Z;             (* f.uncompressed (0 for empty streams) *)
+  m_empty : bool;         (* f.emptystream *)
+  m_target : bool;        (* target_filepath.get(f.id) is not None *)
+  m_chunks : list (Z * Z) (* input of the decompress loop: per iteration (len(tmp), clock advance since the
+                             previous reading of time.time(), unit 1/1024 s) *)
+}.
+
+(* ---------------------------------------------------------------- Worker.decompress, the "u" events *)
+(* state: out_remaining, decompressed_bytes, time since previous_update_at *)
+Fixpoint dec_loop (rem acc since : Z) (chunks : list (Z * Z)) : list Z * Z :=
+  match chunks with
+  | [] => ([], rem)
+  | (n, dt) :: rest =>
+      if rem <=? 0 then ([], rem)                          (* while out_remaining > 0 *)
+      else
+        let rem' := if 0 <? n then rem - n else rem in     (* if len(tmp) > 0: out_remaining -= len(tmp) *)
+        let delta := since + dt in                         (* time.time() - previous_update_at *)
+        let acc' := acc + n in                             (* decompressed_bytes += len(tmp) *)
+        if (rem' <=? 0) || (1024 <=? delta) then           (* out_remaining <= 0 or time_delta >= 1 *)
+          if rem' <=? 0 then ([acc'], rem')                (* put; ...; break *)
+          else let '(us, r) := dec_loop rem' 0 0 rest in (acc' :: us, r)   (* previous_update_at += delta; bytes = 0 *)
+        else dec_loop rem' acc' delta rest
+  end.
+
+Definition dec_updates (size : Z) (chunks : list (Z * Z)) : list Z := fst (dec_loop size 0 0 chunks).
+Definition dec_final (size : Z) (chunks : list (Z * Z)) : Z := snd (dec_loop size 0 0 chunks).
+
+(* the decoder returns between 0 and max_length <= out_remaining bytes per call and the schedule is long enough
+   to finish: what a decoder honouring max_length on an intact stream does *)
+Fixpoint chunks_ok (rem : Z) (chunks : list (Z * Z)) : bool :=
+  if rem <=? 0 then true
+  else match chunks with
+       | [] => false
+       | (n, _) :: rest => (0 <=? n) && (n <=? rem) && chunks_ok (rem - n) rest
+       end.
+
+Definition zsum (l : list Z) : Z := fold_right Z.add 0 l.
+
+(* ---------------------------------------------------------------- Worker._extract_single *)
+Definition delivered (m : member) : bool := m_target m && negb (m_empty m).
+Definition member_updates (m : member) : list Z :=
+  if delivered m then dec_updates (m_size m) (m_chunks m) else [].
+Definition member_events (m : member) : list event :=
+  Start (m_id m) (m_name m) (m_csize m)
+  :: map (Update (m_id m)) (member_updates m) ++ [End (m_id m) (m_name m) (m_size m)].
+Definition worker_events (fs : list member) : list event := flat_map member_events fs.
+
+(* ---------------------------------------------------------------- Worker.extract: who walks what *)
+Inductive mode := NoStreams | Single | MultiSeq | MultiPar.
+Record shape := mkShape {
+  s_mode : mode;
+  s_files : list member;            (* all members in archive order *)
+  s_folders : list (list member)    (* folders[i].files: the non-empty-stream members per folder (Multi* only) *)
+}.
+
+Definition empties (sh : shape) : list member := filter m_empty (s_files sh).
+Definition selected (fo : list member) : bool := existsb m_target fo.   (* any(target_filepath.get(f.id) ...) *)
+Definition sel_folders (sh : shape) : list (list member) := filter selected (s_folders sh).
+
+(* events enqueued by the calling thread between "pre" and the start of the folder threads *)
+Definition main_events (sh : shape) : list event :=
+  match s_mode sh with
+  | NoStreams => worker_events (empties sh)
+  | Single => worker_events (s_files sh)
+  | MultiSeq => worker_events (empties sh) ++ flat_map worker_events (sel_folders sh)
+  | MultiPar => worker_events (empties sh)
+  end.
+(* the programs of the concurrently running workers *)
+Definition workers (sh : shape) : list (list event) :=
+  match s_mode sh with
+  | MultiPar => map worker_events (sel_folders sh)
+  | _ => []
+  end.
+(* the members that the extraction walks ("processes") *)
+Definition processed (sh : shape) : list member :=
+  match s_mode sh with
+  | NoStreams => empties sh
+  | Single => s_files sh
+  | MultiSeq | MultiPar => empties sh ++ concat (sel_folders sh)
+  end.
+
+(* ---------------------------------------------------------------- FIFO merge under a schedule *)
+Fixpoint upd {A} (i : nat) (x : A) (l : list A) : list A :=
+  match l, i with
+  | [], _ => []
+  | _ :: t, O => x :: t
+  | h :: t, S i' => h :: upd i' x t
+  end.
+
+(* sched: who enqueues next; a step of a worker that has nothing left to enqueue is a no-op *)
+Fixpoint run {A} (sched : list nat) (ws : list (list A)) : list A * list (list A) :=
+  match sched with
+  | [] => ([], ws)
+  | i :: s =>
+      match nth i ws [] with
+      | [] => run s ws
+      | e :: r => let '(o, ws') := run s (upd i r ws) in (e :: o, ws')
+      end
+  end.
+
+Definition is_nil {A} (l : list A) : bool := match l with [] => true | _ => false end.
+Definition complete_ws {A} (sched : list nat) (ws : list (list A)) : bool := forallb is_nil (snd (run sched ws)).
+Definition complete (sh : shape) (sched : list nat) : bool := complete_ws sched (workers sh).
+
+(* the queue contents of one extraction *)
+Definition emitted (sh : shape) (sched : list nat) : list event :=
+  Pre :: (main_events sh ++ fst (run sched (workers sh))) ++ [Post].
+
+(* mp=True: the folder workers are processes; their q is a copy; what they put never reaches the reporter *)
+Definition emitted_mp (sh : shape) : list event := Pre :: main_events sh ++ [Post].
+
+(* ---------------------------------------------------------------- well-formedness *)
+Definition ev_id (e : event) : option Z :=
+  match e with Pre | Post => None | Start i _ _ | Update i _ | End i _ _ => Some i end.
+Definition of_id (i : Z) (e : event) : bool := match ev_id e with Some j => j =? i | None => false end.
+Definition proj (i : Z) (evs : list event) : list event := filter (of_id i) evs.
+Definition is_prepost (e : event) : bool := match e with Pre | Post => true | _ => false end.
+Definition is_startend (e : event) : bool := match e with Start _ _ _ | End _ _ _ => true | _ => false end.
+Definition upd_val (e : event) : Z := match e with Update _ n => n | _ => 0 end.
+Definition upd_vals (evs : list event) : list Z :=
+  flat_map (fun e => match e with Update _ n => [n] | _ => [] end) evs.
+Definition upd_total (evs : list event) : Z := zsum (map upd_val evs).
+
+Definition canonical (m : member) (us : list Z) : list event :=
+  Start (m_id m) (m_name m) (m_csize m) :: map (Update (m_id m)) us ++ [End (m_id m) (m_name m) (m_size m)].
+
+(* Pre first, Post last and nowhere else; every event in between belongs to a processed member; the events of a
+   processed member are, in this order: its Start, its updates, its End (name and size as payload); the updates of a
+   delivered member sum to its size; a member that is not delivered has none *)
+Definition wellformed (ms : list member) (evs : list event) : Prop :=
+  exists mid, evs = Pre :: mid ++ [Post] /\
+    (forall e, In e mid -> is_prepost e = false) /\
+    (forall e, In e mid -> exists m, In m ms /\ ev_id e = Some (m_id m)) /\
+    (forall m, In m ms -> exists us, proj (m_id m) mid = canonical m us /\
+        (delivered m = true -> zsum us = m_size m) /\ (delivered m = false -> us = [])).
+
+(* the same as a decision procedure (run by the harness on recorded sequences) *)
+Fixpoint list_eqb {A} (eqb : A -> A -> bool) (a b : list A) : bool :=
+  match a, b with
+  | [], [] => true
+  | x :: a', y :: b' => eqb x y && list_eqb eqb a' b'
+  | _, _ => false
+  end.
+Definition event_eqb (a b : event) : bool :=
+  match a, b with
+  | Pre, Pre | Post, Post => true
+  | Start i n c, Start i' n' c' => (i =? i') && list_eqb Z.eqb n n' && (c =? c')
+  | Update i n, Update i' n' => (i =? i') && (n =? n')
+  | End i n s, End i' n' s' => (i =? i') && list_eqb Z.eqb n n' && (s =? s')
+  | _, _ => false
+  end.
+
+Definition member_okb (mid : list event) (m : member) : bool :=
+  let p := proj (m_id m) mid in
+  let us := upd_vals p in
+  list_eqb event_eqb p (canonical m us) && (if delivered m then zsum us =? m_size m else is_nil us).
+
+Definition wellformedb (ms : list member) (evs : list event) : bool :=
+  match evs with
+  | Pre :: t =>
+      match rev t with
+      | Post :: rmid =>
+          let mid := rev rmid in
+          forallb (fun e => negb (is_prepost e)) mid &&
+          forallb (fun e => existsb (fun m => match ev_id e with Some i => i =? m_id m | None => false end) ms) mid &&
+          forallb (member_okb mid) ms
+      | _ => false
+      end
+  | _ => false
+  end.
+
+(* ---------------------------------------------------------------- reporter and close() *)
+(* the reporter thread: dequeue in order, call the handler, stop at the sentinel None *)
+Fixpoint reporter (q : list (option event)) : list event * bool :=
+  match q with
+  | [] => ([], false)                      (* still blocked in q.get: alive *)
+  | None :: _ => ([], true)                (* break: the thread ends *)
+  | Some e :: r => let '(d, fin) := reporter r in (e :: d, fin)
+  end.
+
+(* timed single-consumer FIFO: item k arrives at time a_k and its handler runs for c_k (unit 1/1024 s); the
+   consumer is idle from `free` on.  Completion times of the handler calls. *)
+Fixpoint completions (free : Z) (items : list (Z * Z)) : list Z :=
+  match items with
+  | [] => []
+  | (a, c) :: r => let d := Z.max free a + c in d :: completions d r
+  end.
+Definition last_completion (free : Z) (items : list (Z * Z)) : Z := last (completions free items) free.
+
+(* close() at time tc: put the sentinel, join(1), is_alive().  Returns (raised InternalError, time close() returns
+   or raises, handler calls completed by then, handler calls completed later) *)
+Definition close_model (free : Z) (items : list (Z * Z)) (tc : Z) : bool * Z * Z * Z :=
+  let cs := completions free items in
+  let fin := Z.max (last_completion free items) tc in      (* the reporter dequeues the sentinel *)
+  let raised := tc + 1024 <? fin in
+  let tret := if raised then tc + 1024 else fin in
+  (raised, tret, Z.of_nat (length (filter (fun d => d <=? tret) cs)),
+   Z.of_nat (length (filter (fun d => tret <? d) cs))).
+
+(* two reporter threads on one queue (second extraction on the same object without close()): every item goes to
+   whichever thread dequeues it *)
+Fixpoint split2 (choice : list bool) (q : list event) : list event * list event :=
+  match q with
+  | [] => ([], [])
+  | e :: r =>
+      let '(a, b) := split2 (tl choice) r in
+      if hd false choice then (a, e :: b) else (e :: a, b)
+  end.
+
+(* ---------------------------------------------------------------- tree protocol *)
+Definition of_pair (t : tree) : Z * Z := (of_TI (tnth t 0), of_TI (tnth t 1)).
+Definition of_member (t : tree) : member :=
+  mkMember (of_TI (tnth t 0)) (of_bytes (tnth t 1)) (of_TI (tnth t 2)) (of_TI (tnth t 3))
+           (of_bool (tnth t 4)) (of_bool (tnth t 5)) (map of_pair (of_TL (tnth t 6))).
+Definition of_mode (t : tree) : mode :=
+  let z := of_TI t in if z =? 0 then NoStreams else if z =? 1 then Single else if z =? 2 then MultiSeq else MultiPar.
+Definition of_shape (t : tree) : shape :=
+  mkShape (of_mode (tnth t 0)) (map of_member (of_TL (tnth t 1)))
+          (map (fun f => map of_member (of_TL f)) (of_TL (tnth t 2))).
+Definition of_sched (t : tree) : list nat := map (fun x => Z.to_nat (of_TI x)) (of_TL t).
+Definition t_event (e : event) : tree :=
+  match e with
+  | Pre => TL [TI 0]
+  | Post => TL [TI 1]
+  | Start i n c => TL [TI 2; TI i; t_bytes n; TI c]
+  | Update i n => TL [TI 3; TI i; TI n]
+  | End i n s => TL [TI 4; TI i; t_bytes n; TI s]
+  end.
+Definition of_event (t : tree) : event :=
+  let k := of_TI (tnth t 0) in
+  if k =? 0 then Pre else if k =? 1 then Post
+  else if k =? 2 then Start (of_TI (tnth t 1)) (of_bytes (tnth t 2)) (of_TI (tnth t 3))
+  else if k =? 3 then Update (of_TI (tnth t 1)) (of_TI (tnth t 2))
+  else End (of_TI (tnth t 1)) (of_bytes (tnth t 2)) (of_TI (tnth t 3)).
+Definition t_events (l : list event) : tree := TL (map t_event l).
+
+Definition events_dispatch (fn : Z) (a : tree) : tree :=
+  match fn with
+  (* FN 260 ev_emitted : (shape sched) -> (complete events) *)
+  | 260 => let sh := of_shape (tnth a 0) in let sc := of_sched (tnth a 1) in
+           TL [t_bool (complete sh sc); t_events (emitted sh sc)]
+  (* FN 261 ev_workers : shape -> (main_events (worker_events ...)) *)
+  | 261 => let sh := of_shape a in TL [t_events (main_events sh); TL (map t_events (workers sh))]
+  (* FN 262 ev_wellformedb : (members events) -> bool *)
+  | 262 => t_bool (wellformedb (map of_member (of_TL (tnth a 0))) (map of_event (of_TL (tnth a 1))))
+  (* FN 263 ev_dec_loop : (size chunks) -> (updates final_remaining) *)
+  | 263 => let '(us, r) := dec_loop (of_TI (tnth a 0)) 0 0 (map of_pair (of_TL (tnth a 1))) in
+           TL [TL (map TI us); TI r]
+  (* FN 264 ev_close : (free items tc) -> (raised t_return n_before n_after) *)
+  | 264 => let '(r, t, nb, na) := close_model (of_TI (tnth a 0)) (map of_pair (of_TL (tnth a 1))) (of_TI (tnth a 2)) in
+           TL [t_bool r; TI t; TI nb; TI na]
+  (* FN 265 ev_emitted_mp : shape -> events *)
+  | 265 => t_events (emitted_mp (of_shape a))
+  (* FN 266 ev_processed : shape -> ids of the processed members *)
+  | 266 => TL (map (fun m => TI (m_id m)) (processed (of_shape a)))
+  (* FN 267 ev_reporter : (queue as list of () | (event)) -> (delivered terminated) *)
+  | 267 => let '(d, fin) := reporter (map (of_opt of_event) (of_TL a)) in TL [t_events d; t_bool fin]
+  (* FN 268 ev_chunks_ok : (size chunks) -> bool *)
+  | 268 => t_bool (chunks_ok (of_TI (tnth a 0)) (map of_pair (of_TL (tnth a 1))))
+  | _ => TL [TI (-2)]
+  end.
